@@ -141,3 +141,51 @@ Example boundary_examples :
   is_char_boundary [47; 195; 169] 1 = true /\ slice_from_cb [47; 195; 169] 1 = Ret [195; 169] /\
   cut_ok [47; 195; 169] 1.
 Proof. repeat split; try reflexivity. right. right. right. exists 0, 47. repeat split. Qed.
+
+(* ---- the positions the source computes ARE cut_ok ---------------------------------------------------
+   `s.find(c)` / `s.rfind(c)` for an ASCII needle (the crate searches for '/' and '~' only), and that position + 1 *)
+Lemma nth_N_app_exact (a : str) c r : nth_N (a ++ c :: r) (N.of_nat (length a)) = Some c.
+Proof.
+  rewrite nth_N_nth_error, Nnat.Nat2N.id. rewrite nth_error_app2 by lia. rewrite Nat.sub_diag. reflexivity.
+Qed.
+
+Theorem find_cut_ok c s i :
+  c < 128 -> findN c s = Some i -> cut_ok s i /\ cut_ok s (i + 1).
+Proof.
+  intros Hc E. unfold findN in E. destruct (find c s) as [k|] eqn:F; [|discriminate]. cbn in E. injection E as <-.
+  apply find_some in F as (a & r & -> & <-).
+  split.
+  - right. right. left. exists c. split; [apply nth_N_app_exact|exact Hc].
+  - right. right. right. exists (N.of_nat (length a)), c. repeat split; [apply nth_N_app_exact|exact Hc].
+Qed.
+
+Theorem rfind_cut_ok c s i :
+  c < 128 -> rfindN c s = Some i -> cut_ok s i /\ cut_ok s (i + 1).
+Proof.
+  intros Hc E. unfold rfindN in E. destruct (rfind c s) as [k|] eqn:F; [|discriminate]. cbn in E. injection E as <-.
+  assert (H : nth_N s (N.of_nat k) = Some c).
+  { rewrite nth_N_nth_error, Nnat.Nat2N.id. clear Hc. revert k F.
+    induction s as [|b t IH]; intros k F; [discriminate|]. cbn [rfind] in F.
+    destruct (rfind c t) as [j|] eqn:G.
+    - injection F as <-. cbn [nth_error]. apply IH. reflexivity.
+    - destruct (N.eqb_spec c b) as [->|]; [|discriminate]. injection F as <-. reflexivity. }
+  split.
+  - right. right. left. exists c. split; assumption.
+  - right. right. right. exists (N.of_nat k), c. repeat split; assumption.
+Qed.
+
+(* so: a cut at (or one past) a found '/' or '~' of a `str` never takes the boundary panic *)
+Corollary slice_at_found_faithful s c i :
+  utf8_valid s = true -> c < 128 -> (findN c s = Some i \/ rfindN c s = Some i) ->
+  slice_from_cb s i = slice_from s i /\ slice_from_cb s (i + 1) = slice_from s (i + 1) /\
+  slice_to_cb s i = slice_to s i /\ slice_to_cb s (i + 1) = slice_to s (i + 1) /\
+  str_split_off_cb s i = str_split_off s i /\ str_split_off_cb s (i + 1) = str_split_off s (i + 1) /\
+  (forall x, str_insert_cb s i x = str_insert s i x) /\ (forall x, str_insert_cb s (i + 1) x = str_insert s (i + 1) x) /\
+  str_remove_cb s i = str_remove s i.
+Proof.
+  intros Hs Hc H.
+  assert (Hcut : cut_ok s i /\ cut_ok s (i + 1)) by (destruct H; [eapply find_cut_ok|eapply rfind_cut_ok]; eassumption).
+  destruct Hcut as [H0 H1].
+  destruct (slicing_prims_faithful s Hs) as (Pf & Pt & _ & Po & Pi & Pr).
+  repeat split; intros; auto.
+Qed.
